@@ -23,6 +23,9 @@ type Action struct {
 	A string `json:"a"` // require prequire setloaded module return returnnothing fail
 	M int    `json:"m,omitempty"`
 	E *VExp  `json:"e,omitempty"`
+	// module(name, package.seeall) instead of module(name); the model does not distinguish them
+	// (the option only gives the module table's metatable an __index)
+	SeeAll bool `json:"seeall,omitempty"`
 }
 
 type Loader struct {
@@ -358,7 +361,13 @@ func (e *envT) resetFiles() {
 
 // ---------- turning scripts into real loaders ----------
 
-const luaPrelude = "local require, package, pcall, error, module, emit = require, package, pcall, error, module, vh_emit\n"
+// Generated Lua code never reads a global after it was installed: the host keeps the originals in
+// the table vh_P (filled before the first script-visible operation), so histories may clobber
+// globals such as `package`.
+const luaPrelude = "local P = vh_P\n"
+
+const luaBodyHead = "local require, package, pcall, error, module, emit, setmetatable = " +
+	"P.require, P.package, P.pcall, P.error, P.module, P.emit, P.setmetatable\n"
 
 func vexpLua(e *VExp) string {
 	if e == nil {
@@ -383,8 +392,10 @@ func vexpLua(e *VExp) string {
 func luaBody(sc []Action, origin string) string {
 	var sb strings.Builder
 	sb.WriteString("local name = ...\n")
+	sb.WriteString(luaBodyHead)
 	fmt.Fprintf(&sb, "emit(name, %q)\n", origin)
-	sb.WriteString("local t0, t1 = {}, {}\n")
+	// t1 has a protected metatable (module(name, package.seeall) must still work on it)
+	sb.WriteString("local t0, t1 = {}, setmetatable({}, {__metatable = \"locked\"})\n")
 	for _, a := range sc {
 		switch a.A {
 		case "require":
@@ -394,7 +405,11 @@ func luaBody(sc []Action, origin string) string {
 		case "setloaded":
 			fmt.Fprintf(&sb, "package.loaded[name] = %s\n", vexpLua(a.E))
 		case "module":
-			sb.WriteString("module(name)\n")
+			if a.SeeAll {
+				sb.WriteString("module(name, package.seeall)\n")
+			} else {
+				sb.WriteString("module(name)\n")
+			}
 		case "return":
 			fmt.Fprintf(&sb, "do return %s end\n", vexpLua(a.E))
 		case "returnnothing":
@@ -412,6 +427,25 @@ type runT struct {
 	log   []logT
 	canon map[*lua.LTable]int
 	blown bool
+	pkg   lua.LValue // the package table, held by the host
+	P     *lua.LTable
+}
+
+// (re)fills vh_P with the library functions that exist now
+func (r *runT) fillP() {
+	L := r.L
+	if r.P == nil {
+		r.P = L.NewTable()
+		L.SetGlobal("vh_P", r.P)
+		r.P.RawSetString("emit", L.NewFunction(func(L *lua.LState) int {
+			r.emit(L.CheckString(1), L.CheckString(2))
+			return 0
+		}))
+	}
+	for _, g := range []string{"require", "package", "pcall", "error", "module", "setmetatable"} {
+		r.P.RawSetString(g, L.GetGlobal(g))
+	}
+	r.pkg = L.GetGlobal("package")
 }
 
 // more loader invocations than any in-domain history can produce: the sentinel no longer stops
@@ -456,6 +490,9 @@ func (r *runT) goLoader(sc []Action) lua.LGFunction {
 		name := L.CheckString(1)
 		r.emit(name, "pre")
 		t := [2]*lua.LTable{L.NewTable(), L.NewTable()}
+		locked := L.NewTable()
+		locked.RawSetString("__metatable", lua.LString("locked"))
+		L.SetMetatable(t[1], locked)
 		for _, a := range sc {
 			switch a.A {
 			case "require":
@@ -468,9 +505,13 @@ func (r *runT) goLoader(sc []Action) lua.LGFunction {
 					L.Pop(1)
 				}
 			case "setloaded":
-				L.SetField(L.GetField(L.GetGlobal("package"), "loaded"), name, vexpGo(L, a.E, t))
+				L.SetField(L.GetField(r.pkg, "loaded"), name, vexpGo(L, a.E, t))
 			case "module":
-				if err := L.CallByParam(lua.P{Fn: L.GetGlobal("module"), NRet: 0, Protect: false}, lua.LString(name)); err != nil {
+				margs := []lua.LValue{lua.LString(name)}
+				if a.SeeAll {
+					margs = append(margs, L.GetField(r.pkg, "seeall"))
+				}
+				if err := L.CallByParam(lua.P{Fn: L.GetGlobal("module"), NRet: 0, Protect: false}, margs...); err != nil {
 					panic(err)
 				}
 			case "return":
@@ -717,11 +758,13 @@ func (r *runT) runInit(init []IOp) (obs []obsT, fail string) {
 		case "openbase":
 			openLib(lua.BaseLibName, lua.OpenBase)(L)
 			baseOpen = true
+			r.fillP()
 			obs = append(obs, obsT{Kind: "none"})
 		case "openpackage":
 			ob := r.protectedTable(openLib(lua.LoadLibName, lua.OpenPackage))
 			if ob.Err == nil {
 				pkgOpen = true
+				r.fillP()
 				L.SetField(L.GetGlobal("package"), "path", lua.LString(r.env.pathString([]int{0, 1})))
 			}
 			obs = append(obs, ob)
@@ -791,18 +834,16 @@ func runHistory(env *envT, x in) (obs []obsT, fail string) {
 			fail = "Go panic escaped: " + s
 		}
 	}()
-	L.SetGlobal("vh_emit", L.NewFunction(func(L *lua.LState) int {
-		r.emit(L.CheckString(1), L.CheckString(2))
-		return 0
-	}))
+	r.fillP()
 	if len(x.Init) > 0 {
 		o, f := r.runInit(x.Init)
 		obs = o
 		if f != "" {
 			return obs, f
 		}
+		r.fillP()
 	}
-	pkg := L.GetGlobal("package")
+	pkg := r.pkg
 	if len(x.Init) == 0 {
 		L.SetField(pkg, "path", lua.LString(env.pathString([]int{0, 1})))
 	}
@@ -831,7 +872,7 @@ func runHistory(env *envT, x in) (obs []obsT, fail string) {
 			} else if o.Loader.Kind == "go" {
 				L.PreloadModule(modNames[o.N], r.goLoader(o.Loader.Script))
 			} else {
-				src := luaPrelude + fmt.Sprintf("package.preload[%q] = function(...)\n%send\n", modNames[o.N], luaBody(o.Loader.Script, "pre"))
+				src := luaPrelude + fmt.Sprintf("P.package.preload[%q] = function(...)\n%send\n", modNames[o.N], luaBody(o.Loader.Script, "pre"))
 				if err := L.DoString(src); err != nil {
 					return obs, "installing a preload loader failed: " + firstLine(err.Error())
 				}
